@@ -420,7 +420,15 @@ func TestAppend(t *testing.T) {
 						oname = fmt.Sprintf("%s_%d", tt.enum.Options[0].Name, i)
 					}
 				}
-				tt.enum.Options = append(tt.enum.Options, &j5sgen.EnumOption{Name: oname})
+				added := &j5sgen.EnumOption{Name: oname}
+				if len(tt.enum.Options) > 0 && rapid.IntRange(0, 2).Draw(t, "optionnumber") == 0 {
+					// an explicit number that an existing option already holds by
+					// position (the attribute is accepted; numbering is by position)
+					n := int32(rapid.IntRange(0, len(tt.enum.Options)).Draw(t, "optionnumberv"))
+					added.Number = &n
+					cls = append(cls, "name:option-with-number-in-use")
+				}
+				tt.enum.Options = append(tt.enum.Options, added)
 			default:
 				nf, naming := newField(t, i, strings.Contains(tt.what, "oneof"), *tt.fields, tt.typeNames)
 				*tt.fields = append(*tt.fields, nf)
